@@ -27,7 +27,10 @@ def render_lines(text, rnd=None, layout=0, cond_expr=False, lits=None):
             indents.append(s)
             stack.append([ln["ind"], s, None])
     out = []
-    if cond_expr:
+    if cond_expr == "ref":
+        # conditions as references to boolean nodes whose CURRENT value differs from their definition
+        out += ["ft bool = false", "ft = true", "ff bool = true", "ff = false"]
+    elif cond_expr:
         out.append("zz int = 1")
     for j_, ln in enumerate(text):
         ind = indents[j_] if indents is not None else " " * sum(widths[:ln["ind"]])
@@ -43,7 +46,9 @@ def render_lines(text, rnd=None, layout=0, cond_expr=False, lits=None):
         elif k == "mod":
             s = f"{ind}{name} = {ln['v']}"
         elif k == "case":
-            if cond_expr:
+            if cond_expr == "ref":
+                s = f"{ind}{name + '.' if name else ''}@case {{?{'ft' if ln['c'] else 'ff'}}}"
+            elif cond_expr:
                 s = f'{ind}@case ("{{?zz}} == {1 if ln["c"] else 2}")'
             else:
                 s = f"{ind}@case {'true' if ln['c'] else 'false'}"
@@ -99,7 +104,7 @@ def parse_dip(text_str, base_env=None):
         return ("err", type(e).__name__, str(e)[:200])
 
 
-def observe_nodes(env, drop=("zz",)):
+def observe_nodes(env, drop=("zz", "ft", "ff")):
     """Ordered list of [path components, value] as env.data() reports them."""
     data = env.data()
     out = []
